@@ -74,11 +74,18 @@ Freeze == /\ Cnt /\ ~TestMode /\ inst = "alive" /\ ~frozen
           /\ frozen' = TRUE /\ last' = <<"Freeze", "-", "stopped">>
           /\ UNCHANGED <<inst, cell, haveCfg, c1, att, cancelled>>
 
+\* another host connects to the running plugin and goes away again without any shutdown request (it
+\* crashed, or its connection was cut): the plugin keeps serving -- surviving its hosts is what
+\* reattaching is for
+Ghost == /\ Cnt /\ haveCfg /\ inst = "alive" /\ ~frozen
+         /\ last' = <<"Ghost", "-", "gone">>
+         /\ UNCHANGED <<inst, cell, haveCfg, c1, att, cancelled, frozen>>
+
 Cancel == /\ Cnt /\ TestMode /\ inst = "alive" /\ ~cancelled       \* the test context is cancelled: serving stops
           /\ cancelled' = TRUE /\ inst' = "dead" /\ last' = <<"Cancel", "-", "stopped">>
           /\ UNCHANGED <<cell, haveCfg, c1, att, frozen>>
 
-RNext == Start \/ Cancel \/ Crash \/ Freeze \/ \E c \in AllClients : Kill(c) \/ Get(c) \/ Reattach(c) \/ Again(c) \/ (\E v \in Values : Set(c, v))
+RNext == Start \/ Cancel \/ Crash \/ Freeze \/ Ghost \/ \E c \in AllClients : Kill(c) \/ Get(c) \/ Reattach(c) \/ Again(c) \/ (\E v \in Values : Set(c, v))
 RSpec == RInit /\ [][RNext]_rv
 
 TestModeNeverKills == [][(TestMode /\ last'[1] = "Kill") => inst' = inst]_rv
